@@ -36,7 +36,7 @@ def plan(tier, seed):
     # cost here is dominated by the number of variants, not signatures
     items = [(n, d, 1) for n, d, _ in items]
     return [{"i": i, "items": b} for i, b in enumerate(W.pack(items, NSHARDS[tier]))] + [{"mutate": True, "dim": d} for d in (2, 3, 4)] + \
-        [{"outforms": True, "dim": d} for d in (2, 3, 4)]
+        [{"outforms": True, "dim": d} for d in (2, 3, 4)] + [{"ufuncs": True, "dim": d} for d in (2, 3, 4)]
 
 
 def run_mutated(spec, tier, seed):
@@ -215,7 +215,77 @@ def run_outforms(spec, tier, seed):
     return res
 
 
+def run_ufuncs(spec, tier, seed):
+    """the scalar-valued operator / NumPy-function spellings (abs, **, numpy.absolute, numpy.square, numpy.sqrt, numpy.cbrt,
+    numpy.power) on NumPy and Awkward arrays: element i is what the same spelling gives for the object vector i"""
+    import awkward as ak
+    import numpy
+
+    from .. import awk
+    from .. import backends as B
+    from .. import gen
+    from .. import refmodel as R
+    from ..engine import LVec
+
+    res = Result()
+    dim = spec["dim"]
+    r = gen.rng(seed, "C03ufunc", dim)
+    n = 6
+    forms = {"abs(v)": lambda v: abs(v), "numpy.absolute": lambda v: numpy.absolute(v), "numpy.square": lambda v: numpy.square(v),
+             "numpy.sqrt": lambda v: numpy.sqrt(v), "numpy.cbrt": lambda v: numpy.cbrt(v), "v**2": lambda v: v ** 2, "v**3": lambda v: v ** 3,
+             "v**0.5": lambda v: v ** 0.5, "numpy.power(v,2)": lambda v: numpy.power(v, 2), "numpy.power(v,3)": lambda v: numpy.power(v, 3),
+             "numpy.power(v,1.5)": lambda v: numpy.power(v, 1.5), "numpy.power(v,-1)": lambda v: numpy.power(v, -1)}
+    struct = [[0, 1], [], [2, 3, 4], [5]]
+    for system in R.SYSTEMS[dim]:
+        for mom in (False, True):
+            ls = []
+            while len(ls) < n:
+                rv, _ = gen.vec4(r, core=True, causal="timelike", forward=True) if dim == 4 else gen.vec(r, dim, core=True)
+                try:
+                    l = LVec(rv, system, mom)
+                    l.exact_coords()
+                    ls.append(l)
+                except R.NotRepresentable:
+                    pass
+            rows = [l.f64()[0] for l in ls]
+            objs = [B.mk_obj(system, row, mom) for row in rows]
+            me = mom and any(B.MOM_SPELL[x] for x in R.field_names(system))
+            arrays = {"numpy": B.mk_numpy_cls(system, rows, mom), "numpy(2,3)": B.mk_numpy_cls(system, rows, mom, (2, 3)),
+                      "awkward:zip": awk.build(system, rows, me, struct, route="zip", extra=True),
+                      "awkward:with_name": awk.build(system, rows, me, struct, route="with_name", spelling=1),
+                      "awkward:Array": awk.build(system, rows, me, struct, route="Array")}
+            for fname, f in forms.items():
+                try:
+                    want = [float(f(o)) for o in objs]
+                except Exception:
+                    res.count("ufunc_form_object_raises:" + fname)
+                    continue
+                scale = max(1.0, max(abs(w) for w in want))
+                for aname, arr in arrays.items():
+                    res.evaluations += 1
+                    cell = f"{fname}|{R.sysname(system)}|{'mom' if mom else 'gen'}|{aname}"
+                    try:
+                        out = f(arr)
+                        got = [float(x) for x in (ak.to_list(ak.flatten(out, axis=None)) if isinstance(out, ak.Array) else numpy.asarray(out).reshape(-1))]
+                    except Exception as e:
+                        res.violation(f"C03/array-backend-raises-where-object-returns variant={aname.split(':')[0]} op={fname}",
+                                      {"cell": cell, "exc": f"{type(e).__name__}: {e}"[:200]})
+                        continue
+                    if len(got) != n or any(not abs(g - w) <= 1e-11 * max(scale, abs(w)) for g, w in zip(got, want)):
+                        res.violation(f"C03/element-differs-from-object-backend variant={aname.split(':')[0]} op={fname}",
+                                      {"cell": cell, "got": got[:3], "expected": want[:3]})
+                    if isinstance(out, ak.Array) and awk.skeleton(ak.to_list(out)) != awk.skeleton(struct):
+                        res.violation(f"C03/awkward-structure-not-preserved variant=awkward op={fname}", {"cell": cell})
+                    if isinstance(out, numpy.ndarray) and aname == "numpy(2,3)" and out.shape != (2, 3):
+                        res.violation(f"C03/numpy-shape-not-preserved variant=numpy op={fname}", {"cell": cell, "got_shape": list(out.shape)})
+                    res.cell("ufunc", cell)
+    res.sample({"part": "operator / numpy-function spellings", "dim": dim, "forms": list(forms)})
+    return res
+
+
 def run_shard(spec, tier, seed):
+    if spec.get("ufuncs"):
+        return run_ufuncs(spec, tier, seed)
     if spec.get("mutate"):
         return run_mutated(spec, tier, seed)
     if spec.get("outforms"):
